@@ -116,6 +116,8 @@ func (c *Config) GetKpasswdServers(realm string, tcp bool) (int, map[int]string,
 }
 
 func randServOrder(ks []string) map[int]string {
+	// Order a copy: the slice passed in is the one held by the configuration and must not be reordered.
+	ks = append([]string(nil), ks...)
 	kdcs := make(map[int]string)
 	count := len(ks)
 	i := 1
